@@ -42,6 +42,8 @@ meta={"property":pid[:3],"origin":"sub-agent given only the property text and a 
 old={}
 p=os.path.join(d,"meta.json")
 if os.path.exists(p): old=json.load(open(p))
+# a re-evaluation after the checks were strengthened keeps the verdicts of the first evaluation
+if os.environ.get("SEED_REEVAL") and "checks" in old and "checks_first_evaluation" not in old: old["checks_first_evaluation"]=old["checks"]
 old.update(meta); json.dump(old,open(p,"w"),indent=1)
 print(json.dumps(meta,indent=1)[:600])
 PY
